@@ -250,6 +250,49 @@ theorem abs_poly3_le (a b : ℝ) {t T : ℝ} (ht : |t| ≤ T) :
   rw [abs_mul, abs_mul]
   gcongr
 
+/-- increment of a quartic in Horner form: `p(t') - p(t) = a₁ (t' - t) + (t' - t)·R` with
+    `|R| ≤ |a₂|·2T + |a₃|·3T² + |a₄|·4T³` for `|t|, |t'| ≤ T`. -/
+theorem quartic_rate (a0 a1 a2 a3 a4 : ℝ) {t t' T : ℝ} (ht : |t| ≤ T) (ht' : |t'| ≤ T) :
+    |(a0 + (a1 + (a2 + (a3 + a4 * t') * t') * t') * t') - (a0 + (a1 + (a2 + (a3 + a4 * t) * t) * t) * t)
+        - a1 * (t' - t)| ≤ |t' - t| * (|a2| * (2 * T) + |a3| * (3 * T ^ 2) + |a4| * (4 * T ^ 3)) := by
+  have hT : 0 ≤ T := (abs_nonneg t).trans ht
+  have e : (a0 + (a1 + (a2 + (a3 + a4 * t') * t') * t') * t') - (a0 + (a1 + (a2 + (a3 + a4 * t) * t) * t) * t)
+        - a1 * (t' - t) =
+      (t' - t) * (a2 * (t' + t) + a3 * (t' ^ 2 + t' * t + t ^ 2) + a4 * (t' ^ 3 + t' ^ 2 * t + t' * t ^ 2 + t ^ 3)) := by
+    ring
+  rw [e, abs_mul]
+  have p11 : |t' * t| ≤ T ^ 2 := by rw [abs_mul, pow_two]; exact mul_le_mul ht' ht (abs_nonneg _) hT
+  have p20 : |t' ^ 2| ≤ T ^ 2 := by rw [abs_pow]; exact pow_le_pow_left₀ (abs_nonneg _) ht' 2
+  have p02 : |t ^ 2| ≤ T ^ 2 := by rw [abs_pow]; exact pow_le_pow_left₀ (abs_nonneg _) ht 2
+  have p30 : |t' ^ 3| ≤ T ^ 3 := by rw [abs_pow]; exact pow_le_pow_left₀ (abs_nonneg _) ht' 3
+  have p03 : |t ^ 3| ≤ T ^ 3 := by rw [abs_pow]; exact pow_le_pow_left₀ (abs_nonneg _) ht 3
+  have p21 : |t' ^ 2 * t| ≤ T ^ 3 := by
+    rw [abs_mul]; calc |t' ^ 2| * |t| ≤ T ^ 2 * T := mul_le_mul p20 ht (abs_nonneg _) (by positivity)
+      _ = T ^ 3 := by ring
+  have p12 : |t' * t ^ 2| ≤ T ^ 3 := by
+    rw [abs_mul]; calc |t'| * |t ^ 2| ≤ T * T ^ 2 := mul_le_mul ht' p02 (abs_nonneg _) hT
+      _ = T ^ 3 := by ring
+  have s1 : |t' + t| ≤ 2 * T := by
+    calc |t' + t| ≤ |t'| + |t| := abs_add_le _ _
+      _ ≤ 2 * T := by linarith
+  have s2 : |t' ^ 2 + t' * t + t ^ 2| ≤ 3 * T ^ 2 := by
+    calc |t' ^ 2 + t' * t + t ^ 2| ≤ |t' ^ 2 + t' * t| + |t ^ 2| := abs_add_le _ _
+      _ ≤ |t' ^ 2| + |t' * t| + |t ^ 2| := by linarith [abs_add_le (t' ^ 2) (t' * t)]
+      _ ≤ 3 * T ^ 2 := by linarith
+  have s3 : |t' ^ 3 + t' ^ 2 * t + t' * t ^ 2 + t ^ 3| ≤ 4 * T ^ 3 := by
+    calc |t' ^ 3 + t' ^ 2 * t + t' * t ^ 2 + t ^ 3| ≤ |t' ^ 3 + t' ^ 2 * t + t' * t ^ 2| + |t ^ 3| := abs_add_le _ _
+      _ ≤ |t' ^ 3 + t' ^ 2 * t| + |t' * t ^ 2| + |t ^ 3| := by linarith [abs_add_le (t' ^ 3 + t' ^ 2 * t) (t' * t ^ 2)]
+      _ ≤ |t' ^ 3| + |t' ^ 2 * t| + |t' * t ^ 2| + |t ^ 3| := by linarith [abs_add_le (t' ^ 3) (t' ^ 2 * t)]
+      _ ≤ 4 * T ^ 3 := by linarith
+  apply mul_le_mul_of_nonneg_left _ (abs_nonneg _)
+  calc |a2 * (t' + t) + a3 * (t' ^ 2 + t' * t + t ^ 2) + a4 * (t' ^ 3 + t' ^ 2 * t + t' * t ^ 2 + t ^ 3)|
+      ≤ |a2 * (t' + t) + a3 * (t' ^ 2 + t' * t + t ^ 2)| + |a4 * (t' ^ 3 + t' ^ 2 * t + t' * t ^ 2 + t ^ 3)| := abs_add_le _ _
+    _ ≤ |a2 * (t' + t)| + |a3 * (t' ^ 2 + t' * t + t ^ 2)| + |a4 * (t' ^ 3 + t' ^ 2 * t + t' * t ^ 2 + t ^ 3)| := by
+        linarith [abs_add_le (a2 * (t' + t)) (a3 * (t' ^ 2 + t' * t + t ^ 2))]
+    _ = |a2| * |t' + t| + |a3| * |t' ^ 2 + t' * t + t ^ 2| + |a4| * |t' ^ 3 + t' ^ 2 * t + t' * t ^ 2 + t ^ 3| := by
+        rw [abs_mul, abs_mul, abs_mul]
+    _ ≤ _ := by gcongr
+
 /-! ### Angle helpers -/
 
 theorem reduce_deg_of_lt {v : ℝ} (h : |v| < 360) : reduce_deg v = v := by
